@@ -121,6 +121,13 @@ def format_case(cid: str, text: str, cfg: T.Dict[str, T.Any], tmp: Path, mods: T
                 out4 = mformat.Formatter(cfile, False, False).format(out3, src)
                 if out4 == out3 and nows(out) == nows(out2):
                     case['againclass'] = 'nosinglecomma'
+            if not case['againclass']:
+                # a fixpoint is reached on the second or third pass and the passes differ only in layout: line breaks,
+                # indentation, trailing commas and the brackets of a files([...]) that is flattened late
+                bare = lambda t: ''.join(t.split()).replace(',', '').replace('[', '').replace(']', '')  # noqa: E731
+                out4 = out3 if out3 == out2 else mformat.Formatter(cfile, False, False).format(out3, src)
+                if out4 == out3 and bare(out) == bare(out2) == bare(out3):
+                    case['againclass'] = 'settles'
     except Exception as e:  # noqa: BLE001
         case['again'] = False
         case['out2'] = 'exception: ' + type(e).__name__
@@ -145,6 +152,35 @@ def format_case(cid: str, text: str, cfg: T.Dict[str, T.Any], tmp: Path, mods: T
             case['changed'] = src.read_bytes() != before
         except Exception:  # noqa: BLE001
             pass
+    return case
+
+
+def group_case(cid: str, texts: T.List[str], changed: bool, cfg: T.Dict[str, T.Any], tmp: Path, mods: T.Any) -> T.Optional[T.Dict[str, T.Any]]:
+    """`meson format --check-only/--check-diff f1 f2 ...` on several files under one configuration.  Encoded as a case
+    of the empty program (tin = tout = <<>>) whose `changed` is the disjunction over the files, so that the clauses
+    CheckOnlyWrong / CheckDiffWrong of TraceFormat judge it."""
+    from mesonbuild import mformat
+    gd = tmp / 'group'
+    gd.mkdir(exist_ok=True)
+    cfile = gd / 'meson.format'
+    cfile.write_text(config_text(cfg))
+    paths = []
+    for n, t in enumerate(texts):
+        pth = gd / f'f{n}.build'
+        pth.write_text(t, encoding='utf-8', newline='')
+        paths.append(str(pth))
+    case: T.Dict[str, T.Any] = {'id': cid, 'text': ' ++ '.join(texts)[:400], 'cfg': cfg, 'tin': [], 'tout': [], 'cin': [], 'cout': [],
+                                'parsed': True, 'again': True, 'againclass': '', 'changed': bool(changed), 'checkrc': -1, 'diffrc': -1,
+                                'sortfiles': False}
+    for flag, key in (('--check-only', 'checkrc'), ('--check-diff', 'diffrc')):
+        p = argparse.ArgumentParser()
+        mformat.add_arguments(p)
+        buf = io.StringIO()
+        try:
+            with contextlib.redirect_stdout(buf):
+                case[key] = int(mformat.run(p.parse_args([flag, '-c', str(cfile)] + paths)))
+        except Exception:  # noqa: BLE001
+            case[key] = 99
     return case
 
 
@@ -173,10 +209,20 @@ def _worker(args: T.Tuple[str, int, int, int, int, T.List[str]]) -> T.Dict[str, 
                         cases.append(case)
                         # boundary inputs for the check flags: a formatter fixed point, and the same text without its final newline
                         if j % 4 == 0 and c == 0 and case.get('out') and case.get('again') and case['out'].endswith('\n'):
+                            members = {}
                             for tag, t2 in (('fix', case['out']), ('fixnonl', case['out'][:-1])):
                                 c2 = format_case(f'gen:{j}:{c}:{tag}', t2, cfg, tmp, mods, alpha, with_cli=True)
                                 if c2:
                                     cases.append(c2)
+                                    members[tag] = c2
+                            # several files in one invocation: a difference is reported iff formatting would change SOME file,
+                            # whatever the order in which the files are visited
+                            if 'fix' in members and 'changed' in case:
+                                for order in ((case, members['fix']), (members['fix'], case), (members['fix'], members['fix'])):
+                                    g = group_case(f'gen:{j}:{c}:group:' + '+'.join('x' if m is case else 'fix' for m in order),
+                                                   [m['text'] for m in order], any(m['changed'] for m in order), cfg, tmp, mods)
+                                    if g:
+                                        cases.append(g)
         else:
             for fi, fn in enumerate(files):
                 try:
@@ -242,7 +288,7 @@ def signature(v: T.Dict[str, T.Any], c: T.Dict[str, T.Any]) -> str:
     if clause.endswith(':InputHasPositionalAfterKeyword'):
         return 'InputHasPositionalAfterKeyword'
     if clause in ('NotIdempotent:IndentationSettlesOnSecondPass', 'NotIdempotent:InputHasLineContinuation',
-                  'NotIdempotent:NoSingleCommaFunctionCollapsesOnSecondPass'):
+                  'NotIdempotent:NoSingleCommaFunctionCollapsesOnSecondPass', 'NotIdempotent:LayoutSettlesOnALaterPass'):
         return clause
     text = (c.get('text') or '')
     cfg = ','.join(f'{k}={val}' for k, val in sorted((c.get('cfg') or {}).items()))
